@@ -237,7 +237,7 @@ func evalPath(node *jparse.PathNode, data reflect.Value, env *environment) (refl
 		}
 	}
 
-	if node.KeepArrays {
+	if keepsArrays(node) {
 		if seq, ok := asSequence(output); ok {
 			seq.keepSingletons = true
 			return reflect.ValueOf(seq), nil
@@ -928,7 +928,27 @@ func evalSort(node *jparse.SortNode, data reflect.Value, env *environment) (refl
 		results.Index(i).Set(items.Index(info[i].index))
 	}
 
+	// The keep-array marker can be written before the order-by
+	// (items[]^(k)): it belongs to the path as a whole.
+	if keepsArrays(node.Expr) {
+		return results, nil
+	}
+
 	return normalizeArray(results), nil
+}
+
+// keepsArrays reports whether a path carries the keep-array
+// marker, on itself or on the path that its first step (an
+// order-by) sorts.
+func keepsArrays(node jparse.Node) bool {
+	switch node := node.(type) {
+	case *jparse.PathNode:
+		return node.KeepArrays || len(node.Steps) > 0 && keepsArrays(node.Steps[0])
+	case *jparse.SortNode:
+		return keepsArrays(node.Expr)
+	default:
+		return false
+	}
 }
 
 func evalLambda(node *jparse.LambdaNode, data reflect.Value, env *environment) (reflect.Value, error) {
